@@ -600,9 +600,9 @@ UriBool URI_FUNC(FixAmbiguity)(URI_TYPE(Uri) * uri,
 
 void URI_FUNC(FixEmptyTrailSegment)(URI_TYPE(Uri) * uri,
 		UriMemoryManager * memory) {
-	/* Fix path if only one empty segment */
-	if (!uri->absolutePath
-			&& !URI_FUNC(IsHostSet)(uri)
+	/* Fix path if only one empty segment, both "" and "/" (for URIs
+	 * without host) are represented without any path segment */
+	if (!URI_FUNC(IsHostSet)(uri)
 			&& (uri->pathHead != NULL)
 			&& (uri->pathHead->next == NULL)
 			&& (uri->pathHead->text.first == uri->pathHead->text.afterLast)) {
